@@ -217,6 +217,30 @@ theorem wait_sql :
     sqlFindFirst = "outbox_id = $1 ORDER BY id ASC LIMIT 1" := by
   decide
 
+open Pithos.Gen.OutboxStorage in
+/-- Data flow of the storage outbox's lease statements (the lease protocol is the one modelled in
+`Pithos.Model.Outbox`; `Pithos.C18.heartbeat_keeps_claim` is the theorem a swapped argument
+falsifies): `claim_until` is written from `claimUntil` and compared with `now`. -/
+theorem sql_bindings :
+    bindClaim = [("set:claim_owner", "owner"), ("set:claim_until", "claimUntil"), ("set:updated_at", "now"),
+                 ("where:id=", "entry.Id.String()"), ("where:outbox_id=", "outboxId"), ("where:version=", "entry.Version"),
+                 ("where:claim_until<=", "now")] ∧
+    bindFinalize = [("where:id=", "id.String()"), ("where:outbox_id=", "outboxId"), ("where:claim_owner=", "owner")] ∧
+    bindRelease = [("set:updated_at", "now"), ("where:id=", "id.String()"), ("where:outbox_id=", "outboxId"),
+                   ("where:claim_owner=", "owner")] ∧
+    bindExtend = [("set:claim_until", "claimUntil"), ("set:updated_at", "now"), ("where:id=", "id.String()"),
+                  ("where:outbox_id=", "outboxId"), ("where:claim_owner=", "owner")] := by
+  decide
+
+open Pithos.Gen.OutboxStorage in
+theorem lease_times_passed_in_order :
+    sigClaim = ["ctx", "tx", "outboxId", "owner", "now", "claimUntil"] ∧
+    callClaimArgs = ["ctx", "tx.SqlTx()", "os.outboxId", "os.claimOwner", "now", "now.Add(os.claimLeaseDuration)"] ∧
+    sigExtend = ["ctx", "tx", "outboxId", "id", "owner", "now", "claimUntil"] ∧
+    callExtendArgs = ["ctx", "tx.SqlTx()", "os.outboxId", "*entry.Id", "os.claimOwner", "now",
+                      "now.Add(os.claimLeaseDuration)"] := by
+  decide
+
 -- ================================================================ the suspected deviation, as a witness
 
 open Pithos.S3 in
